@@ -30,7 +30,7 @@ class FunctionReport:
     callees: List[str] = field(default_factory=list)
 
 
-def verify(target: str, tier: str = "quick", budget_ms: int = 10000) -> FunctionReport:
+def verify(target: str, tier: str = "quick", budget_ms: int = 10000, shard=(0, 1)) -> FunctionReport:
     reg = load_all()
     c = reg.contract_for(target)
     rep = FunctionReport(target, list(getattr(c, "props", [])))
@@ -44,7 +44,9 @@ def verify(target: str, tier: str = "quick", budget_ms: int = 10000) -> Function
         ex = Executor(c, reg)
         obs = ex.run()
         axioms = ex.axioms()
-        for ob in obs:
+        for idx, ob in enumerate(obs):
+            if idx % shard[1] != shard[0]:
+                continue
             v = discharge(axioms, ob, tier, budget_ms)
             rep.verdicts.append(v)
             rep.solver_ms += v.ms
